@@ -1281,14 +1281,27 @@ func watchShapeCases() []RCaseR {
 		targets = append(targets, spelled{kind + "~", parent + "/./" + leaf}, spelled{kind + "~", parent + "/../" + filepath.Base(parent) + "/" + leaf},
 			spelled{kind + "~", parent + "//" + leaf}, spelled{kind + "~", base + "/"}, spelled{kind + "~", base + "/."})
 	}
+	// names with characters that mean something to a shell, to a glob or to a flag parser but not to the kernel or to
+	// the splitter the library uses (no white space, quote or backslash among them): existing files and directories
+	for _, ch := range []string{"*", "?", "[", "]", "[a]", "{", "}", "~", "$", "$HOME", "!", "#", "=", "==", ",", "%", "%s", "@", ":", ";", "&", "|", "<", ">", "(", ")", "+", "^", "-k", "--"} {
+		f, d := filepath.Join(ruleTmp, "f"+ch+"x"), filepath.Join(ruleTmp, "d"+ch+"x")
+		if _, err := os.Stat(f); err != nil {
+			os.WriteFile(f, nil, 0o600)
+		}
+		os.Mkdir(d, 0o700)
+		targets = append(targets, spelled{"path+", f}, spelled{"dir+", d})
+	}
 	for _, sp := range targets {
-		kind, target := strings.TrimSuffix(sp.kind, "~"), sp.target
+		kind, target := strings.TrimSuffix(strings.TrimSuffix(sp.kind, "~"), "+"), sp.target
 		variants := []string{"plain", "S all", "never", "task", "S open", "fourth", "perm-first-only", "no-key", "no-perm", "ne", "two keys"}
-		if strings.HasSuffix(sp.kind, "~") {
+		if strings.HasSuffix(sp.kind, "~") || strings.HasSuffix(sp.kind, "+") {
 			variants = []string{"plain", "no-key"}
 		}
 		for _, variant := range variants {
-			for _, pm := range perms {
+			for pi, pm := range perms {
+				if strings.HasSuffix(sp.kind, "+") && pi != 0 && pi != 3 {
+					continue
+				}
 				pw := uint32(permWord("wa"))
 				parts := []Occ{
 					{Flag: "F", LHS: kind, Op: "=", RHS: target, Value: kind + "=" + target, Str: true},
